@@ -390,6 +390,33 @@ def check_names(ctx, rep):
                 ok = d is not None and d[0] == 'x.id' and d[1] == taxa_param and ast.unparse(k.body.slice) == f"{arg}.taxon"
     rep.check('C02.N', 'Alignment.__init__::sequences-sorted-into-taxa-order-by-name', ok, where(am, init), facts,
               "the sequences must be sorted by the position of their taxon name in the Taxa list (the order of the sequence list must not matter)")
+    # (d') the order of the sequence list must not matter: nothing read from a positional element of the list as given (sequences[0] …) decides what is stored
+    seqs = init.args.args[2].arg if len(init.args.args) > 2 else 'sequences'
+    tainted = set()
+    for st in ast.walk(init):
+        if isinstance(st, ast.Assign) and any(isinstance(x, ast.Subscript) and isinstance(x.value, ast.Name) and x.value.id == seqs and isinstance(x.slice, ast.Constant)
+                                              for x in ast.walk(st.value)):
+            for t in st.targets:
+                tainted.add(ast.unparse(t))
+    dependent = []
+    for st in ast.walk(init):
+        writes = (isinstance(st, ast.Assign) and any(isinstance(t, ast.Subscript) and isinstance(t.value, ast.Name) and t.value.id == seqs for t in st.targets)) or \
+                 (isinstance(st, ast.Expr) and isinstance(st.value, ast.Call) and isinstance(st.value.func, ast.Attribute) and isinstance(st.value.func.value, ast.Name)
+                  and st.value.func.value.id == seqs and st.value.func.attr in ('append', 'insert', 'extend', 'remove', 'pop'))
+        if not writes:
+            continue
+        ctx_nodes = [st]
+        p_ = getattr(st, '_parent', None)
+        while p_ is not None and p_ is not init:
+            if isinstance(p_, (ast.If, ast.While)):
+                ctx_nodes.append(p_.test)
+            p_ = getattr(p_, '_parent', None)
+        if any(ast.unparse(x) in tainted for nd in ctx_nodes for x in ast.walk(nd) if isinstance(x, (ast.Name, ast.Attribute))):
+            dependent.append(st)
+    rep.check('C02.N', 'Alignment.__init__::stored-sequences-do-not-depend-on-list-order', not dependent, where(am, dependent[0] if dependent else init),
+              {'read_from_a_positional_element': sorted(tainted), 'dependent_stores': [norm_text(d)[:60] for d in dependent]},
+              f"Alignment.__init__ changes the sequences (`{norm_text(dependent[0])[:60] if dependent else ''}`) depending on {sorted(tainted)}, which is read from a fixed position of the "
+              f"list as it was given: listing the same sequences in another order stores different data")
     # (e) tips are emitted in Taxa order, looked up by taxon name
     sm = ctx.prog.module(SMOD)
     for name in ('compress_alignment', 'compress_alignment_states'):
@@ -571,6 +598,11 @@ def run(ctx, rep):
     except Unsupported as u:
         rep.undecided('C02.N', 'check_names', f"line {getattr(u.node, 'lineno', 0)}", str(u))
     check_table_datatypes(ctx, rep)
+    # moving the root must not change the value (pulley principle): with rescaling this needs ONE scaler per site and node, taken over categories and states together and
+    # added back as a per-site term — a scaler per rate category re-weights the categories differently at every node, and where the root sits then matters (C03.P rules)
+    from props import c03
+    from sa.report import RuleProxy
+    c03.check_scalers(ctx, RuleProxy(rep, 'C02.W', 'scalers::'))
     # clamp at state_count
     sp = ctx.prog.module('torchtree.evolution.site_pattern')
     fn = sp.functions.get('compress_alignment_states')
